@@ -7,6 +7,7 @@ pub mod c04;
 pub mod c05;
 pub mod c06;
 pub mod c07;
+pub mod c08;
 pub mod c09;
 pub mod c10;
 pub mod c11;
@@ -25,6 +26,7 @@ pub fn registry() -> Vec<PropEntry> {
         PropEntry { id: "C05", run: c05::run, replay: c05::replay },
         PropEntry { id: "C06", run: c06::run, replay: c06::replay },
         PropEntry { id: "C07", run: c07::run, replay: c07::replay },
+        PropEntry { id: "C08", run: c08::run, replay: c08::replay },
         PropEntry { id: "C09", run: c09::run, replay: c09::replay },
         PropEntry { id: "C10", run: c10::run, replay: c10::replay },
         PropEntry { id: "C11", run: c11::run, replay: c11::replay },
